@@ -31,7 +31,7 @@ class TaskContext:
 
     # ---- Engine J ----
     def prove(self, title, args, ensures, requires=None, *, targets=(), prefix=None, workers=1, timeout=None,
-              selfcheck=True, expect_cover=True, **opts):
+              selfcheck=True, expect_cover=True, also=(), **opts):
         """Trace + symbolically evaluate + discharge every clause element.  Clauses named `canary.*` must be refuted
         and replayed (anti-vacuity); clauses are filtered by `prefix` (property id) when given."""
         import numpy as np
@@ -43,7 +43,7 @@ class TaskContext:
         def filt(d):
             if not isinstance(d, dict):
                 d = {pfx + "_": d}
-            return {k: v for k, v in d.items() if k.startswith(pfx) or k.startswith("canary.")}
+            return {k: v for k, v in d.items() if k.startswith(pfx) or k.startswith("canary.") or any(k.startswith(a) for a in also)}
 
         ens = lambda *a: filt(ensures(*a))
         if timeout is None:
@@ -342,13 +342,20 @@ def replay_file(prop, path):
     mod = importlib.import_module("checks." + prop)
     tasks = mod.tasks("quick")
     owner = [t for t in tasks if title.startswith(t) or t in title]
-    code = 0
-    for t in owner[:1]:
+    # task ids and problem titles are related only by convention: fall back on every task (stopping at the first that owns the obligation)
+    owner = owner[:1] + [t for t in tasks if t not in owner[:1]]
+    code, found = 0, False
+    for t in owner:
         r = run_task(prop, t, "quick", 0)
         for o in r["obligations"]:
             if o["name"] == doc["obligation"]:
-                print("now:", o["verdict"], json.dumps(o.get("replay", {}), default=str)[:2000])
+                print(f"now (task {t}):", o["verdict"], json.dumps(o.get("replay", {}), default=str)[:2000])
                 code = 1 if o["verdict"] == "sat" else 0
+                found = True
+        if found:
+            break
+    if not found:
+        print("the obligation is no longer generated by any task of this check")
     return code
 
 
